@@ -770,6 +770,13 @@ class ConstsFromSource(UperBase):
             w = self.want[n]
             exp = w[1] if isinstance(w, tuple) else "(null)"
             reqs.append(f"uper desccheck {n} {exp}")
+        # the identifiers of the variants of every generated enum (ENUMERATED, CHOICE), in the order of the ASN.1
+        # text — the index on the wire is the position in that list
+        for n in self.names:
+            d = self.defs.get(n)
+            if d is not None and d["k"] in ("enum", "choice"):
+                items = d["items"] if d["k"] == "enum" else [a["name"] for a in d["alts"]]
+                reqs.append(f"uper variants {n} {','.join(rust_name(i) for i in items)}")
         return reqs
 
     def shape_check(self, name, real):
@@ -790,6 +797,9 @@ class ConstsFromSource(UperBase):
 
     def oracle(self, req, ans):
         name = self.req_name(req)
+        if req.split(" ")[1] == "variants":
+            want = "ok " + req.split(" ")[3]
+            return None if ans == want else f"variants of the generated enum are {ans[:200]}, the text declares {want[3:][:200]}"
         if not ans.startswith("ok "):
             return f"type cannot be described: {ans[:100]}"
         real = ans[3:]
@@ -812,6 +822,8 @@ class ConstsFromSource(UperBase):
     def finding_class(self, req, ans):
         """the recorded deviation, exactly as coded — any other difference from the source is none"""
         w = self.want.get(self.req_name(req))
+        if req.split(" ")[1] == "variants":
+            return None
         if isinstance(w, tuple) and w[2] and ans.startswith("ok ") and ans[3:] == w[1]:
             return w[2][0]
         return None
@@ -821,7 +833,7 @@ class ConstsFromSource(UperBase):
         if impl != model:
             return False
         name = self.req_name(req)
-        if not impl.startswith("ok "):
+        if not impl.startswith("ok ") or req.split(" ")[1] == "variants":
             return True
         if self.lean_err is not None:
             return False
@@ -831,6 +843,8 @@ class ConstsFromSource(UperBase):
         name = self.req_name(req)
         w = self.want.get(name)
         mod = name.split("::")[0]
+        if req.split(" ")[1] == "variants":
+            return f"variants:{mod}:{ans.split(' ')[0]}"
         if not isinstance(w, tuple):
             return f"consts:{mod}:unsupported"
         lean = "lean=" + ("same" if self.lean.get(name) == ans[3:] else "DIFF")
